@@ -210,7 +210,7 @@ def run(tier):
     with cf.ProcessPoolExecutor(max_workers=8) as ex:
         res = list(ex.map(explore_cfg, [(c, depth, base.seed()) for c in cs]))
         sres = list(ex.map(simulate_cfg, [(c, 150 if quick else 1500, 20, base.seed() + i) for i, c in enumerate(cs)]))
-    conform.settle_audit(res)
+    conform.settle_audit(res + [{"audit": None, "fails": x["fails"]} for x in sres])
     closed = True
     for x in res:
         R.cov["traces_validated_against_impl"] += x["edges"]
